@@ -130,6 +130,29 @@ def check_conversion(orig, conv, trace, call):
     return out
 
 
+def caller_edit(data, kind):
+    """In-place edits a caller may make between dumps (new arrays assigned to the same member objects)."""
+    if kind == "scale_exponents" and data.obasis is not None:
+        for sh in data.obasis.shells:
+            sh.exponents = sh.exponents * 1.25
+    elif kind == "scale_contraction" and data.obasis is not None:
+        sh = data.obasis.shells[0]
+        sh.coeffs = sh.coeffs * 0.5
+    elif kind == "move_atom" and data.atcoords is not None:
+        data.atcoords[0, 0] += 0.125
+    elif kind == "permute_mo" and data.mo is not None and data.mo.coeffs is not None:
+        data.mo.coeffs = data.mo.coeffs[::-1].copy()
+    elif kind == "retitle":
+        data.title = "edited between dumps"
+    elif kind == "drop_shell" and data.obasis is not None and len(data.obasis.shells) > 1 and data.mo is not None \
+            and data.mo.coeffs is not None and data.mo.kind != "generalized":
+        last = data.obasis.shells[-1]
+        nb = last.nbasis
+        data.obasis.shells.pop()
+        data.mo.coeffs = data.mo.coeffs[:-nb].copy()
+        data.one_rdms.clear()
+
+
 def do_call(data, call, disk, prefix):
     """One dump / write_input of `data`.  Returns (result|None, exc|None, warnings list)."""
     import iodata
@@ -165,6 +188,11 @@ def run_history(trace, stats=None):
     nontriv = False
     with seams.Installed(disk), sched.Steps() as st:
         for k, call in enumerate(trace["calls"]):
+            if call.get("edit"):
+                # the caller legitimately edits its own object between two dumps
+                caller_edit(data, call["edit"])
+                snap0 = snapshot(data)
+                continue
             res, exc, wl, path, plan = do_call(data, call, disk, f"h{k}/")
             et = type(exc).__name__ if exc is not None else "ok"
             snap = snapshot(data)
@@ -285,7 +313,16 @@ def gen_trace(rng):
         return c
     if rng.random() < 0.6:
         calls = [call() for _ in range(rng.randint(1, 4))]
+        if len(calls) >= 2 and rng.random() < 0.45:
+            pos = rng.randint(1, len(calls) - 1)
+            calls.insert(pos, {"edit": rng.choice(["scale_exponents", "scale_contraction", "move_atom", "permute_mo", "retitle", "drop_shell"]),
+                               "fmt": "-", "allow_changes": False})
+            if rng.random() < 0.5:
+                # same target format before and after the edit
+                calls[pos + 1] = dict(calls[pos - 1])
         for c in calls:
+            if c.get("edit"):
+                continue
             r = rng.random()
             if r < 0.12:
                 c["faults"] = [{"kind": "text_write_fail", "k": rng.randint(0, 60), "errno": "ENOSPC"}]
